@@ -234,7 +234,11 @@ pub(crate) fn check_arg_or_value_step<const K: usize, const B: usize>(lx: &Lexer
     let comma = c == ',' && flags.terminate_on_comma();
     let name_char = ref_name_start(c) || (named && det_xid_continue(c));
     assert!(lx.errors.len() == pre.err_n, "C09: argument name detection reports nothing");
-    if comma {
+    if c == '%' && nx == Some('*') {
+        // a macro comment ends a possible argument name: the name can no longer be extended or rolled back to
+        assert!(lx.checkpoint.is_none(), "C01: a macro comment releases the argument-name checkpoint");
+        assert!(tn == pre.tok_n + 1 && shadow::tok(pre.tok_n).token_type == TokenType::MacroComment && shadow::tok(pre.tok_n).channel == TokenChannel::COMMENT && pi >= pre.pi + 2 && n == pre.stack_len, "C06/C13: a macro comment inside an argument is a comment token; the argument goes on");
+    } else if comma {
         assert!(lx.checkpoint.is_none(), "C01: a delimiter releases the argument-name checkpoint");
         if flags.populate_next_arg_stack() {
             assert!(pi == pre.pi + 1 && tn == pre.tok_n + 1, "C13: a top-level comma is a delimiter token");
@@ -343,7 +347,7 @@ macro_rules! lx_arg_or_value_named_harness {
                 let pi = check_common(&lx, &t, &base);
                 check_progress::<$k, $b, 3>(&lx, &t, &pre, pi);
                 check_arg_or_value_step(&lx, &t, &pre, pi, $c, flags, true, base.pi, base.tok_n);
-                kani::cover!(lx.mode_stack.len() != pre.stack_len || lx.mode_stack[pre.stack_len - 1] != arg_modes(flags)[2]);
+                kani::cover!(lx.mode_stack.len() != pre.stack_len || lx.mode_stack[pre.stack_len - 1] != arg_modes(flags)[2] || shadow::tok_n() > pre.tok_n);
                 std::mem::forget(lx);
             }
         }
@@ -356,6 +360,7 @@ lx_arg_or_value_named_harness!(3, 16, 7, lx_arg_or_value_named_space, ' ', |t| t
 lx_arg_or_value_named_harness!(3, 16, 7, lx_arg_or_value_named_quote, '"', |t| true);
 lx_arg_or_value_named_harness!(3, 16, 7, lx_arg_or_value_named_slash, '/', |t| true);
 lx_arg_or_value_named_harness!(3, 16, 7, lx_arg_or_value_named_percent, '%', |t| !ch_at(&t, 2).map_or(false, ref_name_start) && ch_at(&t, 2) != Some('*'));
+lx_arg_or_value_named_harness!(5, 24, 8, lx_arg_or_value_named_mcomment, '%', |t| ch_at(&t, 2) == Some('*'));
 
 // the look-ahead for '=' after blanks/comments: '=' makes the text before it an argument name,
 // anything else rolls back to where the name started and the whole text becomes the value
